@@ -8,8 +8,12 @@ import json, os, re, shutil, subprocess, sys, time, hashlib
 VERIF = os.path.dirname(os.path.dirname(os.path.abspath(__file__)))
 SPEC = os.path.join(VERIF, "spec")
 HARNESS = os.path.join(VERIF, "harness")
-OUT = os.path.join(VERIF, "out")
-EVID = os.path.join(VERIF, "evidence")
+# Development aid (never used by the registered commands): VERIF_REPO=<copy of /repo> builds the harness crates against that copy
+# (cargo `paths` override) and VERIF_SCRATCH=<dir> keeps out/, evidence/ and the cargo target dirs of such a trial apart.
+ALT_REPO = os.environ.get("VERIF_REPO")
+SCRATCH = os.environ.get("VERIF_SCRATCH")
+OUT = os.path.join(SCRATCH, "out") if SCRATCH else os.path.join(VERIF, "out")
+EVID = os.path.join(SCRATCH, "evidence") if SCRATCH else os.path.join(VERIF, "evidence")
 JAR = "/opt/veriftools/tla/tla2tools.jar:/opt/veriftools/tla/CommunityModules-deps.jar"
 NCPU = os.cpu_count() or 4
 
@@ -183,7 +187,12 @@ def build_harness(crate="harness"):
     e["CARGO_NET_OFFLINE"] = "true"
     t0 = time.time()
     e.pop("CARGO_TARGET_DIR", None)
-    p = subprocess.run(["cargo", "build", "--offline", "-q"], cwd=cdir, env=e, stdout=subprocess.PIPE,
+    cmd = ["cargo", "build", "--offline", "-q"]
+    if ALT_REPO:
+        cmd += ["--config", 'paths=["%s/lib"]' % ALT_REPO]
+    if SCRATCH:
+        e["CARGO_TARGET_DIR"] = os.path.join(SCRATCH, "target", crate)
+    p = subprocess.run(cmd, cwd=cdir, env=e, stdout=subprocess.PIPE,
                        stderr=subprocess.STDOUT, text=True)
     if p.returncode != 0:
         sys.stderr.write(p.stdout[-6000:])
@@ -193,6 +202,8 @@ def build_harness(crate="harness"):
 
 
 def harness_bin(crate="harness"):
+    if SCRATCH:
+        return os.path.join(SCRATCH, "target", crate, "debug", "conform")
     return os.path.join(VERIF, crate, "target", "debug", "conform")
 
 
